@@ -62,14 +62,26 @@ type C02RebindOp struct {
 	K    int64  `json:"k,omitempty"`
 }
 
-type c02Obj struct{ N int64 }
+type c02Obj struct {
+	N int64
+	M map[string]int64
+	S []int64
+}
+
+func newC02Obj(n int64) *c02Obj {
+	return &c02Obj{N: n, M: map[string]int64{"k": n + 100}, S: []int64{n + 200, 7}}
+}
 
 func checkC02Rebind(c *C02Case, x *Ctx) {
 	rb := c.Rebind
 	names := []string{"A", "B", "C"}
-	objs := []*c02Obj{{rb.Init[0]}, {rb.Init[1]}, {rb.Init[2]}}
+	objs := []*c02Obj{newC02Obj(rb.Init[0]), newC02Obj(rb.Init[1]), newC02Obj(rb.Init[2])}
+	mobj := []*c02Obj{newC02Obj(rb.Init[0]), newC02Obj(rb.Init[1]), newC02Obj(rb.Init[2])} // the model's own objects
 	model := []int64{rb.Init[0], rb.Init[1], rb.Init[2]}
 	cur, acc, binds := 0, int64(0), 0
+	var tm map[string]int64 // what the local t holds in the model
+	var us []int64          // what the local u holds
+	refs := 0
 	var b strings.Builder
 	b.WriteString("rule \"prog\" \"d\" salience 1\nbegin\n  acc = 0\n")
 	for _, op := range rb.Ops {
@@ -100,6 +112,40 @@ func checkC02Rebind(c *C02Case, x *Ctx) {
 			} else {
 				acc--
 			}
+		case "grabm":
+			fmt.Fprintf(&b, "  t = %s.M\n", names[op.Obj])
+			tm = mobj[op.Obj].M
+		case "swapm":
+			o2 := (op.Obj + 1 + int(op.K+9)%2) % 3
+			fmt.Fprintf(&b, "  %s.M = %s.M\n", names[op.Obj], names[o2])
+			mobj[op.Obj].M = mobj[o2].M
+			refs++
+		case "setm":
+			fmt.Fprintf(&b, "  %s.M[\"k\"] = %d\n", names[op.Obj], op.K)
+			mobj[op.Obj].M["k"] = op.K
+		case "readm":
+			if tm == nil {
+				continue
+			}
+			b.WriteString("  acc = acc + t[\"k\"]\n")
+			acc += tm["k"]
+		case "grabs":
+			fmt.Fprintf(&b, "  u = %s.S\n", names[op.Obj])
+			us = mobj[op.Obj].S
+		case "swaps":
+			o2 := (op.Obj + 1 + int(op.K+9)%2) % 3
+			fmt.Fprintf(&b, "  %s.S = %s.S\n", names[op.Obj], names[o2])
+			mobj[op.Obj].S = mobj[o2].S
+			refs++
+		case "sets":
+			fmt.Fprintf(&b, "  %s.S[0] = %d\n", names[op.Obj], op.K)
+			mobj[op.Obj].S[0] = op.K
+		case "reads":
+			if us == nil {
+				continue
+			}
+			b.WriteString("  acc = acc + u[0]\n")
+			acc += us[0]
 		case "loop":
 			fmt.Fprintf(&b, "  for i = 0; i < 3; i += 1 {\n    p.N += %d\n    acc = acc + p.N\n  }\n", op.K)
 			for i := 0; i < 3; i++ {
@@ -111,8 +157,11 @@ func checkC02Rebind(c *C02Case, x *Ctx) {
 	b.WriteString("  return acc\nend\n")
 	text := b.String()
 	x.Class("pointer-local-rebound")
-	if binds >= 2 {
+	if binds >= 2 || refs > 0 {
 		x.NonTrivial()
+	}
+	if refs > 0 {
+		x.Class("map-or-slice-field-re-pointed-while-a-local-holds-the-old-one")
 	}
 	r, err := buildDSL(text, map[string]interface{}{"A": objs[0], "B": objs[1], "C": objs[2]})
 	if err != nil {
@@ -123,6 +172,12 @@ func checkC02Rebind(c *C02Case, x *Ctx) {
 	if pan != "" || gerr != nil || !returned {
 		x.Violation("rebind", "err=%v panic=%q returned=%v\n%s", gerr, truncate(pan, 200), returned, text)
 		return
+	}
+	for i := range objs {
+		if fmt.Sprint(objs[i].M) != fmt.Sprint(mobj[i].M) || fmt.Sprint(objs[i].S) != fmt.Sprint(mobj[i].S) {
+			x.Violation("rebind", "%s.M=%v %s.S=%v, want %v and %v\n%s", names[i], objs[i].M, names[i], objs[i].S, mobj[i].M, mobj[i].S, text)
+			return
+		}
 	}
 	if fmt.Sprint(got) != fmt.Sprint(acc) || objs[0].N != model[0] || objs[1].N != model[1] || objs[2].N != model[2] {
 		x.Violation("rebind", "a local holding a pointer to an injected struct, re-bound %d times: returned %v, A.N=%d B.N=%d C.N=%d; want %d, %d %d %d\n%s", binds-1, got, objs[0].N, objs[1].N, objs[2].N, acc, model[0], model[1], model[2], text)
@@ -929,7 +984,7 @@ func mapOrderFrom(observed []obs.Event) func(loop int, remaining []reflect.Value
 func init() {
 	register(&Prop{
 		ID:   "C02",
-		Rule: "one rule per case: statement trees (depth <= 4, <= 30 statements) over int/bool/string/float locals and an injected world (pointer struct with int64/uint64/float64/string/bool fields, slice, array, string-keyed map; directly injected slice, maps, pointer array): plain and compound assignments to locals, fields and elements, if with 0-3 else-if and optional else (conditions often simultaneously true), for loops with literal bounds <= 5 whose condition / step may be recording functions, forRange over slices, arrays and maps (possibly empty), break/continue under arbitrary if nesting inside loops, return (bare or with value) at the end of any block at any depth, reads of locals assigned only on some path, tr(n) observer calls everywhere; oracle = reference interpreter replaying the same program (map iteration order taken from the observed run): exact observer trace, returned flag and value, error-ness and the complete final host world must agree. 1% of the cases are a forRange over a slice, array, map or slice-valued local of 1000-120000 elements (16383/16384/16385/32768/65537 preferred) with an optional break/return/continue, checked against the directly computed pass count and sum. 3% of the cases bind a local to one of three pointer-injected structs, read and read-modify-write a field through the local (+= -= *=, plain assignment, inside if and for), re-bind the local to another object and go on; the returned accumulator and the three objects are compared with the directly computed values. Conditions are pure expressions or comparisons on a stateful observed counter nx() (every evaluation of a condition is visible in the trace and changes the next one). Non-trivial: the reference execution hit continue in a for, break in an inner loop, a return that skips later statements, an else-if/else branch, a compound assignment on an injected target, or a read of a local assigned in a nested block; distinct by case hash",
+		Rule: "one rule per case: statement trees (depth <= 4, <= 30 statements) over int/bool/string/float locals and an injected world (pointer struct with int64/uint64/float64/string/bool fields, slice, array, string-keyed map; directly injected slice, maps, pointer array): plain and compound assignments to locals, fields and elements, if with 0-3 else-if and optional else (conditions often simultaneously true), for loops with literal bounds <= 5 whose condition / step may be recording functions, forRange over slices, arrays and maps (possibly empty), break/continue under arbitrary if nesting inside loops, return (bare or with value) at the end of any block at any depth, reads of locals assigned only on some path, tr(n) observer calls everywhere; oracle = reference interpreter replaying the same program (map iteration order taken from the observed run): exact observer trace, returned flag and value, error-ness and the complete final host world must agree. 1% of the cases are a forRange over a slice, array, map or slice-valued local of 1000-120000 elements (16383/16384/16385/32768/65537 preferred) with an optional break/return/continue, checked against the directly computed pass count and sum. 3% of the cases bind a local to one of three pointer-injected structs, read and read-modify-write a field through the local (+= -= *=, plain assignment, inside if and for), re-bind the local to another object and go on, and bind further locals to map- and slice-typed fields of those structs that are re-pointed (`A.M = B.M`) or mutated afterwards; the returned accumulator and the three objects are compared with the directly computed values. Conditions are pure expressions or comparisons on a stateful observed counter nx() (every evaluation of a condition is visible in the trace and changes the next one). Non-trivial: the reference execution hit continue in a for, break in an inner loop, a return that skips later statements, an else-if/else branch, a compound assignment on an injected target, or a read of a local assigned in a nested block; distinct by case hash",
 		New:  func() interface{} { return &C02Case{} },
 		Gen: func(t *rapid.T) interface{} {
 			if pct(t, "rebind", 3) {
@@ -937,7 +992,7 @@ func init() {
 				for i := range rb.Init {
 					rb.Init[i] = int64(uni(t, fmt.Sprintf("rebind_init%d", i), -50, 50))
 				}
-				kinds := []string{"bind", "bind", "addc", "adds", "sub", "mul", "read", "read", "cond", "loop"}
+				kinds := []string{"bind", "bind", "addc", "adds", "sub", "mul", "read", "read", "cond", "loop", "grabm", "swapm", "setm", "readm", "readm", "grabs", "swaps", "sets", "reads", "reads"}
 				n := uni(t, "rebind_nops", 4, 14)
 				for i := 0; i < n; i++ {
 					k := kinds[uni(t, fmt.Sprintf("rebind_kind%d", i), 0, len(kinds)-1)]
